@@ -110,7 +110,8 @@ enum GKey {
     /// path = pre ++ [alt] ++ post (alts empty: pre ++ post); wild: 0 none, 1 `*`, 2 `*h`
     X {
         xk: usize,
-        with_origin: bool,
+        /// the (unauthenticated) key origin as written: fingerprint and path
+        origin: Option<(Fingerprint, Vec<ChildNumber>)>,
         pre: Vec<ChildNumber>,
         alts: Vec<ChildNumber>,
         post: Vec<ChildNumber>,
@@ -216,11 +217,11 @@ impl GKey {
             GKey::Raw { xk, text, .. } => {
                 write!(s, "{}{}", w.xks[*xk].xpub, text).unwrap();
             }
-            GKey::X { xk, with_origin, pre, alts, post, wild, xprv } => {
+            GKey::X { xk, origin, pre, alts, post, wild, xprv } => {
                 let x = &w.xks[*xk];
-                if *with_origin {
-                    write!(s, "[{}", x.master_fp).unwrap();
-                    fmt_steps(&mut s, &x.opath);
+                if let Some((fp, p)) = origin {
+                    write!(s, "[{}", fp).unwrap();
+                    fmt_steps(&mut s, p);
                     s.push(']');
                 }
                 if *xprv {
@@ -259,12 +260,12 @@ impl GKey {
     /// select alternative j (oracle side)
     fn select(&self, j: usize) -> GKey {
         match self {
-            GKey::X { xk, with_origin, pre, alts, post, wild, xprv } if !alts.is_empty() => {
+            GKey::X { xk, origin, pre, alts, post, wild, xprv } if !alts.is_empty() => {
                 let mut p = pre.clone();
                 p.push(alts[j.min(alts.len() - 1)]);
                 GKey::X {
                     xk: *xk,
-                    with_origin: *with_origin,
+                    origin: origin.clone(),
                     pre: p,
                     alts: vec![],
                     post: post.clone(),
